@@ -7,7 +7,9 @@ import (
 	"fmt"
 	"io"
 	"strings"
+	"sync"
 	"testing/fstest"
+	"time"
 
 	"github.com/titpetric/vuego"
 )
@@ -210,10 +212,85 @@ func c12MidCancel(r *Run) {
 	}
 }
 
+// a destination that is slow, and a context cancelled while the finished document is being handed over to it (the
+// first Write cancels, then takes its time): an error still means the destination got nothing, nil means it got
+// everything, and nothing reaches the destination after the call has returned
+type c12SlowWriter struct {
+	mu     sync.Mutex
+	buf    bytes.Buffer
+	cancel func()
+}
+
+func (w *c12SlowWriter) Write(p []byte) (int, error) {
+	w.cancel()
+	time.Sleep(40 * time.Millisecond)
+	w.mu.Lock()
+	defer w.mu.Unlock()
+	return w.buf.Write(p)
+}
+func (w *c12SlowWriter) Len() int { w.mu.Lock(); defer w.mu.Unlock(); return w.buf.Len() }
+
+func c12CancelInWrite(r *Run) {
+	tpl := strings.Repeat("<p>row {{ n }}</p>\n", 30)
+	for _, entry := range []string{"Render", "RenderFile", "RenderString", "RenderByte", "RenderReader", "Render+layout", "Render+default-layout"} {
+		ctx, cancel := context.WithCancel(context.Background())
+		files := fstest.MapFS{"page.vuego": &fstest.MapFile{Data: []byte(tpl)}}
+		switch entry {
+		case "Render+layout":
+			files["page.vuego"] = &fstest.MapFile{Data: []byte("---\nlayout: la\n---\n" + tpl)}
+			files["layouts/la.vuego"] = &fstest.MapFile{Data: []byte(`<main v-html="content"></main><footer>{{ n }}</footer>`)}
+		case "Render+default-layout":
+			files["layouts/base.vuego"] = &fstest.MapFile{Data: []byte(`<main v-html="content"></main>`)}
+		}
+		t := vuego.NewFS(files).Fill(map[string]any{"n": 1})
+		w := &c12SlowWriter{cancel: cancel}
+		var err error
+		pan := ""
+		func() {
+			defer func() {
+				if x := recover(); x != nil {
+					pan = fmt.Sprint(x)
+				}
+			}()
+			switch entry {
+			case "Render", "Render+layout", "Render+default-layout":
+				err = t.Load("page.vuego").Render(ctx, w)
+			case "RenderFile":
+				err = t.RenderFile(ctx, w, "page.vuego")
+			case "RenderString":
+				err = t.RenderString(ctx, w, tpl)
+			case "RenderByte":
+				err = t.RenderByte(ctx, w, []byte(tpl))
+			case "RenderReader":
+				err = t.RenderReader(ctx, w, strings.NewReader(tpl))
+			}
+		}()
+		atReturn := w.Len()
+		time.Sleep(150 * time.Millisecond)
+		later := w.Len()
+		cancel()
+		r.Eval("cancel-in-write:"+entry, true, nil)
+		r.Count("stream:cancel-in-write(oracle only)")
+		sig := map[string]string{"oracle": "cancel-in-write", "entry": entry}
+		desc := map[string]any{"entry": entry, "received_at_return": atReturn, "received_later": later, "err": fmt.Sprint(err)}
+		switch {
+		case pan != "":
+			r.Fail("a render panics when its context is cancelled during the hand-over", sig, desc)
+		case later != atReturn:
+			r.Fail("bytes reach the destination after the render has returned", sig, desc)
+		case err != nil && later > 0:
+			r.Fail("a render returned an error although the destination received output", sig, desc)
+		case err == nil && later == 0:
+			r.Fail("a render returned nil without writing the document", sig, desc)
+		}
+	}
+}
+
 func init() { streams["C12"] = runC12 }
 
 func runC12(r *Run) {
 	c12MidCancel(r)
+	c12CancelInWrite(r)
 	r.Imports = []string{"Model.Entry"}
 	r.Rule("every Template render entry point (Render with/without layouts, RenderFile, RenderString, RenderByte, RenderReader) x a catalogue of succeeding and failing programs " +
 		"(failure early, late, inside include, inside loop, unmet :required, missing page, missing layout, failure in a layout, in the last link of a 3-chain, layout cycle) " +
